@@ -71,7 +71,10 @@ func main() {
 		r.Analysed["packages_loaded"] = len(p.Pkgs)
 		r.Analysed["functions_in_scope"] = len(w.Funcs)
 		if *tier == "thorough" {
-			r.AfterCheck = func() { selfTest(r, *repo, *verif, id) }
+			r.AfterCheck = func() {
+				selfTest(r, *repo, *verif, id)
+				deepCheck(r, *repo, *verif, id)
+			}
 		}
 		code := runOne(ck, &props.Ctx{W: w, R: r}, *verif, known, seed)
 		if code > exit {
